@@ -69,6 +69,10 @@ var c14Contexts = [][2]string{
 	{"2^", ""},
 	{"1 //", ""},
 	{"w~=", ""},
+	// text that looks like a comment opener or a long bracket inside a string earlier on the line
+	{"\"--\" .. ", ""},
+	{"f(\"a--b\", ", ")"},
+	{"'[[' .. ", ""},
 }
 
 func c14has(list []string, n string) bool {
